@@ -149,9 +149,9 @@ static void obj_del(void *a, int kind) {
 /* ---- scheduler ------------------------------------------------------------------------ */
 enum { K_NORMAL = 0, K_BLOCKED = 1, K_YIELD = 2 };
 static int is_starved(int t) {
-    if (cfg.policy != POL_STARVE || t == 0) return 0;
-    if (cfg.starve_tid >= 0) return t == cfg.starve_tid;
-    return cfg.starve_mod > 0 && t % cfg.starve_mod == cfg.starve_rem;
+    if (cfg.policy != POL_STARVE) return 0;
+    if (cfg.starve_tid >= 0) return t == cfg.starve_tid;   /* starve_tid 0 = a slow application: it only proceeds when the library has nothing to do */
+    return t != 0 && cfg.starve_mod > 0 && t % cfg.starve_mod == cfg.starve_rem;
 }
 static void record_dev(int tid) {
     if (!cfg.record_trace) return;
